@@ -13,5 +13,6 @@ CONSTANTS
   MaxMsgs = 1
   MaxLen = 3
   Dev <- AllDev
+  Store = "dict"
 INVARIANT TypeOK
 CHECK_DEADLOCK FALSE
